@@ -25,6 +25,17 @@ func init() {
 	})
 }
 
+// nonFinite puts +-Inf / NaN into some elements of an operand of an operation whose backward rule is value-independent.
+func nonFinite(k *fw.K, x *ref.T) {
+	for i := range x.Data {
+		if k.Rng.Intn(2) == 0 {
+			x.Data[i] = []float64{math.Inf(-1), math.Inf(1), math.NaN()}[k.Rng.Intn(3)]
+		}
+	}
+	x.Data[k.Rng.Intn(len(x.Data))] = math.Inf(-1)
+	k.Count("cases_with_non_finite_operand_values", 1)
+}
+
 func runC07(c *fw.Ctx) {
 	deeperBounds(!c.Quick())
 	u := func(k *fw.K, shape []int) *ref.T { return Shuffled(k.Rng, Unique(k.Rng, shape, 0.2, 2.5)) }
@@ -72,7 +83,13 @@ func runC07(c *fw.Ctx) {
 	for _, src := range Shapes(0, c.Pick(3, 4), 3) {
 		for _, target := range BroadcastTargets(src, 2) {
 			src, target := src, target
-			c.Case(func(k *fw.K) { run(k, ref.Instr{Op: "broadcast", Shape: target}, []*ref.T{u(k, src)}, []bool{true}) })
+			c.Case(func(k *fw.K) {
+				x := u(k, src)
+				if k.Index%4 == 0 { // the gradient of an expansion does not depend on the operand's VALUES: also +-Inf / NaN entries (a -Inf mask)
+					nonFinite(k, x)
+				}
+				run(k, ref.Instr{Op: "broadcast", Shape: target}, []*ref.T{x}, []bool{true})
+			})
 		}
 	}
 	// ---- implicit: arithmetic ----
@@ -88,6 +105,9 @@ func runC07(c *fw.Ctx) {
 								if math.Abs(b.Data[i]) < 0.2 {
 									b.Data[i] = 0.7
 								}
+							}
+							if (op == "add" || op == "sub") && k.Index%5 == 0 {
+								nonFinite(k, []*ref.T{a, b}[k.Rng.Intn(2)])
 							}
 							run(k, ref.Instr{Op: op}, []*ref.T{a, b}, mask)
 						})
